@@ -8,7 +8,7 @@
     runs at an occurrence iff no later call before that occurrence removed it, where an Off naming
     the handler or naming nothing and OffAll remove On/Once handlers, an occurrence uses up Once
     handlers, and only offSubEvent(s) remove sub-event handlers). *)
-From SioV Require Import Base.GoSem Sio.HandlerStore Sio.HandlerStoreProofs.
+From SioV Require Import Base.GoSem Sio.HandlerStore Sio.HandlerStoreProofs Sio.HandlerStoreOrig.
 
 (** For every call sequence (duplicates, several handlers removed in one call, absent handlers,
     any identity test) every occurrence runs exactly the handlers the specification names, in
@@ -52,6 +52,16 @@ Theorem C18_once_at_most_once :
   length (filter P (concat (outs A same merged)))
   <= length (filter (is_once_of P) (concat progs)).
 Proof. exact once_at_most_once_concurrent. Qed.
+
+(** The same for OnceEvent: handlers registered for event [e] only through OnceEvent are run by
+    the occurrences of [e] at most as often as they were registered, for every interleaving. *)
+Theorem C18_event_once_at_most_once :
+  forall A (same : A -> A -> bool) e (P : A -> bool) (progs : list (list (eop A))) merged,
+  interleaving progs merged ->
+  Forall (fun p => forallb (fun o => negb (is_eon_of A e P o)) p = true) progs ->
+  length (filter P (concat (eouts_e A same e merged)))
+  <= length (filter (is_eonce_of A e P) (concat progs)).
+Proof. exact event_once_at_most_once. Qed.
 
 (** ... and right after an occurrence no Once handler is left, On and sub-event handlers are. *)
 Theorem C18_occurrence_clears_once : forall A (same : A -> A -> bool) past,
@@ -131,6 +141,13 @@ Example C18_event_partial_satisfiable :
   code_identifies (ehandlers_of ops) = true
   /\ eouts fval same_code ops = [(0%N, [(2%N, 0%N)]); (1%N, [(1%N, 0%N)])].
 Proof. vm_compute. split; reflexivity. Qed.
+
+(** The removal loop as it was before the fix (Go slice aliasing modelled, HandlerStoreOrig.v):
+    it could panic, and it could leave a named handler registered. *)
+Theorem C18_original_off_refuted :
+  (exists l hs, off_orig N N.eqb l hs = Panic)
+  /\ (exists l hs l', off_orig N N.eqb l hs = Ok l' /\ l' <> remove N N.eqb hs l).
+Proof. exact orig_off_not_exact. Qed.
 
 (** Non-vacuity of the main statements: the inputs on which the code before the fix panicked or
     left a named handler registered. *)
